@@ -185,18 +185,24 @@ def ob_discr(i: int, j: int, sha: bool) -> bool:
 
 def ob_alias(k: int, as_bytes: bool, container: int) -> bool:
     """
-    pre: 0 <= k <= 3
+    pre: 0 <= k <= 5
     pre: 0 <= container <= 2
     post: _
     """
     H.enter()
-    kk, ab, c = H.select(k, 0, 3), bool(as_bytes), H.select(container, 0, 2)
+    kk, ab, c = H.select(k, 0, 5), bool(as_bytes), H.select(container, 0, 2)
+    # equal but distinct *tuples*: pickle memoises them, only str/bytes opt out (recorded finding, see DESIGN section 6)
+    H.known("KF-C08-aliased-tuples", kk >= 4)
     with H.native():
         import joblib
-        base = ["aa", "x" * 40, "", "é"][kk]
-        s1 = base.encode("utf-8") if ab else base
-        s2 = (base + "Z")[:-1]
-        s2 = s2.encode("utf-8") if ab else s2          # equal, distinct object
+        if kk >= 4:
+            s1 = [(1, 2), (1, "a")][kk - 4]
+            s2 = tuple(list(s1))
+        else:
+            base = ["aa", "x" * 40, "", "é"][kk]
+            s1 = base.encode("utf-8") if ab else base
+            s2 = (base + "Z")[:-1]
+            s2 = s2.encode("utf-8") if ab else s2          # equal, distinct object
         if s1 is s2 and len(s1) > 1:
             return H.verdict(False, "could not build a distinct equal string")
         same = [[s1, s1], (s1, s1), {"p": s1, "q": s1}][c]
@@ -234,6 +240,6 @@ def obligations(tier, seed):
                             "bounds": "all 120 insertion orders of 5 items (%s) against the first and the last order" % uni})
     obs.append({"name": "discr", "fn": "ob_discr", "mode": "S", "timeout": 600,
                 "bounds": "all 900 ordered pairs of a 30-value typed universe, md5 and sha1"})
-    obs.append({"name": "alias", "fn": "ob_alias", "mode": "S", "timeout": 120,
-                "bounds": "4 strings x str/bytes x list/tuple/dict: the same object twice vs equal distinct objects"})
+    obs.append({"name": "alias", "fn": "ob_alias", "mode": "S", "timeout": 120, "kf": ["KF-C08-aliased-tuples"],
+                "bounds": "4 strings x str/bytes (and 2 tuples) x list/tuple/dict: the same object twice vs equal distinct objects"})
     return obs
